@@ -10,7 +10,8 @@
    `lib_facts` (the facts of C24).  Statements only; proofs are in Proofs/Reload_proofs.v. *)
 From Coq Require Import ZArith List Bool String.
 Import ListNotations.
-Require Import Grist.Lib.PyFloat Grist.Model.Values Grist.Model.Reload Grist.Proofs.Values_enc_proofs Grist.Proofs.Reload_proofs.
+Require Import Grist.Lib.PyFloat Grist.Model.Values Grist.Model.Reload Grist.Model.ReloadPrims Grist.Proofs.Values_enc_proofs Grist.Proofs.Reload_proofs.
+Require Import GristGen.Reload_gen Grist.Proofs.Reload_bridge.
 Open Scope Z_scope.
 
 (* 'UTC' is a zone; timedelta(seconds=td.total_seconds()) is exact on whole days and within 16 microseconds otherwise; a
@@ -232,3 +233,105 @@ Example C07_refuted_nan_in_container :
   py_eq ideal_orc (encode_f ideal_orc 5 v) (encode_f ideal_orc 5 v) = false /\
   flush_cell ideal_orc 5 (recompute_cell ideal_orc v v) = Some v.
 Proof. split; vm_compute; reflexivity. Qed.
+
+(* ================================================================================================================== *)
+(* The code itself.  coq/gen/Reload_gen.v is translated from /repo on every run (harness/rl2v.py): main._decode_db_value,
+   BoolColumn/NumericColumn/ChoiceListColumn.set, ReferenceColumn/ReferenceListColumn._clean_up_value, objtypes.safe_shift,
+   RaisedException.decode_args, strict_equal, equal_encoding, and the table of which set() each column type resolves to.
+   Each translated function is, pointwise, the hand-written model (a semantic edit of the source breaks one of these). *)
+
+Theorem C07_bridge_decode_db_value : forall orc unmarshal fuel x,
+  gen_decode_db_value (decode_f orc fuel) (loads_of unmarshal) x = Ok (fst (from_db orc unmarshal fuel x)).
+Proof. exact bridge_decode_db_value. Qed.
+
+Theorem C07_bridge_BoolColumn_set : forall v, gen_BoolColumn_set v = Ok (bool_set v).
+Proof. exact bridge_BoolColumn_set. Qed.
+
+Theorem C07_bridge_NumericColumn_set : forall orc v, gen_NumericColumn_set orc v = numeric_set v.
+Proof. exact bridge_NumericColumn_set. Qed.
+
+Theorem C07_bridge_ChoiceListColumn_set : forall orc v, gen_ChoiceListColumn_set orc v = Ok (choicelist_set orc v).
+Proof. exact bridge_ChoiceListColumn_set. Qed.
+
+Theorem C07_bridge_ReferenceColumn_clean_up_value : forall v, gen_ReferenceColumn_clean_up_value v = Ok (ref_cleanup v).
+Proof. exact bridge_ReferenceColumn_clean_up_value. Qed.
+
+Theorem C07_bridge_ReferenceListColumn_clean_up_value : forall orc v,
+  gen_ReferenceListColumn_clean_up_value orc v = Ok (reflist_cleanup orc v).
+Proof. exact bridge_ReferenceListColumn_clean_up_value. Qed.
+
+Theorem C07_bridge_col_set : forall orc T v, gen_col_set orc T v = col_set orc T v.
+Proof. exact bridge_col_set. Qed.
+
+Theorem C07_bridge_strict_equal : forall orc a b, gen_strict_equal orc a b = Ok (strict_equal orc a b).
+Proof. exact bridge_strict_equal. Qed.
+
+Theorem C07_bridge_equal_encoding : forall orc fuel a b,
+  gen_equal_encoding orc (encode_f orc fuel) a b = Ok (equal_encoding orc fuel a b).
+Proof. exact bridge_equal_encoding. Qed.
+
+Theorem C07_bridge_safe_shift : forall orc k l d,
+  gen_safe_shift orc (PList k l) d = Ok (fst (shift_or d l), PList k (snd (shift_or d l))).
+Proof. exact bridge_safe_shift. Qed.
+
+(* decode_args builds the fields (name, message, details, decoded user input or NO_INPUT, stand-in exception) *)
+Theorem C07_bridge_decode_args : forall orc dec a rest,
+  gen_decode_args orc dec (PTuple (a :: rest)) = exc_tuple dec a rest.
+Proof. exact bridge_decode_args. Qed.
+
+(* ... which is the E branch of decode_object in Model/Values.v, and the .error of Model/Reload.v *)
+Theorem C07_bridge_decode_E : forall orc n a rest, forallb marshalableb rest = true ->
+  decode_f orc (S n) (tag "E" (a :: rest)) = err_of_tuple (gen_decode_args orc (decode_f orc n) (PTuple (a :: rest))).
+Proof. exact decode_E_by_gen. Qed.
+
+Theorem C07_bridge_decoded_err : forall orc n a rest,
+  decoded_err orc (S n) (tag "E" (a :: rest)) = errdesc_of_tuple orc (gen_decode_args orc (decode_f orc n) (PTuple (a :: rest))).
+Proof. exact decoded_err_by_gen. Qed.
+
+Theorem C07_bridge_reload : forall orc marshal unmarshal T fuel c,
+  code_reload orc marshal unmarshal T fuel c = reload orc marshal unmarshal T fuel c.
+Proof. exact bridge_reload. Qed.
+
+(* ---- the property theorems, about the translated code ------------------------------------------------------------- *)
+
+Theorem C07_code_value_roundtrip_partial : forall orc marshal unmarshal T n v err,
+  lib_facts orc -> marshal_rt marshal unmarshal (encode_f orc n v) ->
+  vforall node_ok v = true -> vforall (node_dt orc) v = true -> storable orc T v ->
+  exists w err', code_reload orc marshal unmarshal T n (v, err) = Ok (w, err') /\ encode_f orc n w = encode_f orc n v.
+Proof. intros orc m u T n v err. rewrite bridge_reload. apply C07_value_roundtrip_partial. Qed.
+
+Theorem C07_code_no_stored : forall orc fuel before after,
+  gen_equal_encoding orc (encode_f orc fuel) before after = Ok true ->
+  bind (code_recompute_cell orc before after) (code_flush_cell orc fuel) = Ok None.
+Proof.
+  intros orc fuel b a H. rewrite bridge_recompute_cell. cbn [bind]. rewrite bridge_flush_cell.
+  rewrite bridge_equal_encoding in H. injection H as H. rewrite (no_stored orc fuel b a H). reflexivity.
+Qed.
+
+Theorem C07_code_reloaded_cell_quiet_partial : forall orc marshal unmarshal T n v err new,
+  lib_facts orc -> marshal_rt marshal unmarshal (encode_f orc n v) ->
+  vforall node_ok v = true -> vforall (node_dt orc) v = true -> storable orc T v ->
+  encode_f orc n new = encode_f orc n v ->
+  py_eq orc (encode_f orc n v) (encode_f orc n v) = true ->
+  exists w err', code_reload orc marshal unmarshal T n (v, err) = Ok (w, err') /\
+                 bind (code_recompute_cell orc w new) (code_flush_cell orc n) = Ok None.
+Proof.
+  intros orc m u T n v err new Hl Hm Hok Hdt Hst Hnew Hrefl.
+  destruct (C07_reloaded_cell_quiet_partial orc m u T n v err new Hl Hm Hok Hdt Hst Hnew Hrefl) as [w [err' [Hr Hq]]].
+  exists w, err'. rewrite bridge_reload. split; [exact Hr|].
+  rewrite bridge_recompute_cell. cbn [bind]. rewrite bridge_flush_cell, Hq. reflexivity.
+Qed.
+
+Theorem C07_code_reload_observably_equal_partial : forall orc marshal unmarshal T n v,
+  marshal_rt marshal unmarshal (encode_f orc n (match T, v with TChoiceList, PTuple l => PList LPlain l | _, _ => v end)) ->
+  exact_cell T n v = true -> gen_col_set orc T v = Ok v ->
+  code_reload orc marshal unmarshal T n (v, None) = Ok (v, None).
+Proof. intros orc m u T n v Hm He Hs. rewrite bridge_reload. rewrite bridge_col_set in Hs. apply reload_exact; assumption. Qed.
+
+Theorem C07_code_reload_error_cell : forall orc marshal unmarshal T n nm msg details ui err,
+  marshal_rt marshal unmarshal (encode_f orc n (PErr (PStr false nm) msg details ui)) ->
+  vforall node_ok (PErr (PStr false nm) msg details ui) = true ->
+  (ui = None \/ exists k, n = S k) ->
+  exists ui', code_reload orc marshal unmarshal T n (PErr (PStr false nm) msg details ui, err) =
+              Ok (PErr (PStr false nm) msg details ui', Some (nm, Some (exc_text orc msg))).
+Proof. intros orc m u T n nm msg details ui err. rewrite bridge_reload. apply reload_error_cell. Qed.
